@@ -497,7 +497,7 @@ pub fn run(ctx: &Ctx) -> Report {
             Item::Label("A".into()),
             Item::Data(Some(8), vec!["A".into()]),
         ];
-        let addrs: [i64; 4] = [-3, -4, -0x100, -1];
+        let addrs: [i128; 6] = [-3, -4, -0x100, -1, (1 << 64) + 1, (1 << 64) - 2];
         let kn = nitems.len() as u64;
         let maxlen_n = if ctx.thorough { 5 } else { 4 };
         let per = seq_count(kn, maxlen_n);
@@ -506,10 +506,10 @@ pub fn run(ctx: &Ctx) -> Report {
             let seq = seq_decode(d[0], kn, maxlen_n);
             let mut prog = f2_prog(&seq, &nitems, false);
             prog.items.insert(0, Item::Bank("n".into()));
-            prog.items.insert(0, Item::Bankdef(BankSrc { name: "n".into(), bits: Some(8), addr: Some(addrs[d[1] as usize] as i128), size: None, outp: Some(0), fill: false, labelalign: None }));
+            prog.items.insert(0, Item::Bankdef(BankSrc { name: "n".into(), bits: Some(8), addr: Some(addrs[d[1] as usize]), size: None, outp: Some(0), fill: false, labelalign: None }));
             judge_prog(&prog, "F2-layout-negative-bank", &opts, l);
         }));
-        levels.push(json!({"family": format!("F2-layout in a bank at a negative address: sequences of length <= {} over {} items x {} addresses", maxlen_n, kn, addrs.len()), "cases": per * addrs.len() as u64}));
+        levels.push(json!({"family": format!("F2-layout in a bank at a negative address or beyond 2^64: sequences of length <= {} over {} items x {} addresses", maxlen_n, kn, addrs.len()), "cases": per * addrs.len() as u64}));
     }
     // F2-label-layout: layout directives whose operand depends on labels (forward and backward); the reference
     // iterates the layout to its self-consistent state and gives no verdict when a directive depends on its own effect
